@@ -336,6 +336,11 @@ pub fn micro_h() -> Vec<HShape> {
         // 10: a child already taken by the sweep is relinked under a sibling the sweep has not reached yet:
         // it is found and visited a second time
         sh(&[None, Some(0), Some(0)], &[2, 2, 2], &[Fail, Idle, Idle], &[&[Link(2, 1)], &[Link(1, 2)]]),
+        // 11: a child handed over to another supervisor; a late unlink naming the old (exiting / exited) supervisor
+        // changes nothing; the child then fails under its new supervisor
+        sh(&[None, Some(0), None], &[2, 2, 2], &[Stop, Fail, Idle], &[&[Link(1, 2), Unlink(1, 0)]]),
+        // 12: the same with the unlink on its own thread (it may also come first, when it is still a real unlink)
+        sh(&[None, Some(0), None], &[2, 2, 2], &[Fail, Idle, Idle], &[&[Link(1, 2)], &[Unlink(1, 0)], &[Kill(1)]]),
     ]
 }
 
@@ -383,7 +388,7 @@ pub fn rand_h(rng: &mut Rng) -> HShape {
             }
             ops.push(match rng.below(8) {
                 0 | 1 | 2 => EOp::Link(a, b),
-                3 => EOp::Unlink(a, sup[a].unwrap_or(b)),
+                3 => EOp::Unlink(a, if rng.chance(1, 2) { sup[a].unwrap_or(b) } else { b }),
                 4 | 5 => EOp::Kill(a),
                 6 => EOp::Drain(a),
                 _ => EOp::Link(b, a),
